@@ -61,7 +61,7 @@ CONFIGS = [
     cfg("query_q", [["build"], ["elideset", "compressone", "observe"], ["observe"]], nreg=1, maxsize=12, maxt=2,
         shapes="ShUpTo(%s, 5) \\cup NodeSubjectNodes(%s, 9) \\cup Decorated(%s)" % (B3, B2, B2)),
     # the decoder on every single structural mutation of valid encodings (C06)
-    cfg("decode_q", [["build"], ["elideset", "compressone", "decodewire", "codec"], ["decodewire", "codec"]], nreg=1, maxsize=12, maxt=1,
+    cfg("decode_q", [["build"], ["elideset", "compressone", "decodewire", "codec"], ["decodewire", "codec"]], nreg=1, maxsize=14, maxt=1,
         inv=("WellFormedInv", "C05RoundTrip"), props=("C06Prop",),
         shapes="ShUpTo(%s, 5) \\cup NodeSubjectNodes(%s, 9) \\cup Decorated(%s) \\cup Nodes2(%s) \\cup Nodes3(%s) \\cup TkvShapes \\cup BstrShapes \\cup DeepDecorated(%s)" % (B3, B2, B1, B2, B2, B1)),
     cfg("decode_t", [["build"], ["elideset", "compressone", "decodewire", "codec"], ["decodewire2", "codec"]], nreg=1, maxsize=12, maxt=1,
